@@ -357,10 +357,10 @@ Proof.
     destruct (new_with_options opts) as [e kf]. cbn [fst snd w_store w_tree w_g w_cb].
     repeat split; try reflexivity; try apply H.
   - (* WReadFile *)
-    pose proof (th_read_file_api_rel tr (cb_of cb) (abs_path path) dl cm g g' H) as Hrel.
-    pose proof (th_read_file_api_pres tr (cb_of cb) (abs_path path) dl cm g) as Hp.
-    set (r1 := read_file_api tr g (cb_of cb) (abs_path path) dl cm) in *.
-    set (r2 := read_file_api tr g' (cb_of cb) (abs_path path) dl cm) in *.
+    pose proof (th_read_file_api_rel tr (cb_of cb) path dl cm g g' H) as Hrel.
+    pose proof (th_read_file_api_pres tr (cb_of cb) path dl cm g) as Hp.
+    set (r1 := read_file_api tr g (cb_of cb) path dl cm) in *.
+    set (r2 := read_file_api tr g' (cb_of cb) path dl cm) in *.
     destruct (th_finish_read st tr cb g g' o r1 r2 Hrel) as (F1 & F2 & F3 & F4 & F5 & F6).
     destruct (finish_read (mkW st tr g cb) o r1) as [w1 o1].
     destruct (finish_read (mkW st tr g' cb) o r2) as [w2 o2].
